@@ -971,11 +971,13 @@ func (s *State) evalForInteger(fe *ast.ForExpression, start *int64, end int64, n
 			ptr = register.Ptr()
 			// On every way out of the loop (normal end, break, return, error, panic): release the register and,
 			// like without registers, leave the variable holding the value of the last iteration started.
+			// env is the loop's scope: when a panic unwinds through here s.env is still the scope of the innermost call.
+			env := s.env
 			defer func() {
 				last := *ptr
-				s.env.ReleaseRegister(register)
+				env.ReleaseRegister(register)
 				if started {
-					s.env.Set(name, object.Integer{Value: last})
+					env.Set(name, object.Integer{Value: last})
 				}
 			}()
 		} else {
